@@ -1,0 +1,20 @@
+//! Verification hook (cfg ordinals_ord_verif): the private coin selection of the builder.
+use super::*;
+
+/// `select_cardinal_utxo(target_value, prefer_under)` on a freshly constructed builder from
+/// whose pool the outpoints `spent` have been taken; returns the chosen outpoint, its value
+/// and the pool that is left.
+pub fn select_cardinal_utxo(
+  mut builder: TransactionBuilder,
+  spent: &[OutPoint],
+  target_value: u64,
+  prefer_under: bool,
+) -> Result<(OutPoint, Amount, Vec<OutPoint>)> {
+  for outpoint in spent {
+    builder.utxos.remove(outpoint);
+  }
+
+  let (utxo, value) = builder.select_cardinal_utxo(target_value, prefer_under)?;
+
+  Ok((utxo, value, builder.utxos.iter().copied().collect()))
+}
